@@ -158,7 +158,36 @@ def answer (nodes : List Node) (order : List Nat) (extra : Option (List (List Ch
     else "^".intercalate (runOps (wbOf V cm) (semOf V cm) (loadedState V R) ops)
   s!"map:{mapS};twice:{boolTok twice};idem:{boolTok idem};idemmap:{boolTok idemmap};ops:{opsS}"
 
+/-- `c03 pk t1 t2 …`: texts of successive saves of an edited model into an empty directory (digest = the text itself,
+    i.e. a faithful digest).  Answer `rw:<bit per save: pickle (re)written>;fresh:<pickle = model of the last text>` -/
+def answerPk (ts : List String) : String :=
+  let step := fun (acc : Disk String String × List String) (t : String) =>
+    let d := acc.1
+    let rw := textChangedBy (fun x : String => x) d.text t || d.pickle.isNone
+    (saveStep (fun x : String => x) (fun x : String => x) d t, acc.2 ++ [boolTok rw])
+  let r := ts.foldl step ((⟨none, none⟩ : Disk String String), [])
+  s!"rw:{"".intercalate r.2};fresh:{boolTok (r.1.pickle == r.1.text)}"
+
+def optHash (t : String) : Option (List Char) := if t = "-" then none else some t.toList
+
+def showHash : Option (List Char) → String
+  | none => "-"
+  | some h => String.ofList h
+
+/-- `c03 hash h0 cur…`: a model compiled when the workbook had digest h0; `cur…` = digests of the workbook file at the
+    moments `hash_matches` is asked on the LOADED model.  Answer: the excel_hash written by the save, the one written
+    by a re-save of the loaded model, and the hash_matches bits. -/
+def answerHash (h0 : String) (curs : List String) : String :=
+  let m : Model Nat := { cells := [], cycles := none, hash := optHash h0, filename := [], extra := none }
+  let R := reload Codec.id emb0 [] [] m
+  let R2 := reload Codec.id emb0 [] [] R
+  let hm := curs.map fun c => boolTok (R.hashMatches (optHash c))
+  s!"file:{showHash (docHash (toDoc Codec.id m))};file2:{showHash (docHash (toDoc Codec.id R))};" ++
+  s!"hash3:{showHash R2.hash};hm:{"".intercalate hm}"
+
 def handle : List String → String
+  | "c03" :: "pk" :: ts => answerPk ts
+  | "c03" :: "hash" :: h0 :: curs => answerHash h0 curs
   | "c03" :: n :: rest =>
     match n.toNat? with
     | none => "!bad-n"
